@@ -99,8 +99,8 @@ def _norm_item(app):
     return txt
 
 
-def run(ctx):
-    chk = Check('C16', ctx)
+def run(ctx, host=None):
+    chk = host.sub('C16') if host is not None else Check('C16', ctx)
     prog = ctx.prog
     R1 = chk.rule('C16.R1', 'the four two-strategy lookups agree: same set in both branches, IN-chunks <= 999, ordered scan + sorted right side, hashkey left_key, BOTH only, same accumulator', 4)
     R2 = chk.rule('C16.R2', 'dedup and missing handling: the funnel works on set(request); skip_if_missing guards only MISSING; has_objects maps over the original list', 3)
